@@ -95,6 +95,9 @@ pub enum Instr {
     SpawnPipe { script: Script },
     /// producer side: send a register (or 0) into the channel this task was spawned with
     Send { reg: Option<usize> },
+    /// create a one-shot request future and drop it without ever polling it (the branch not
+    /// taken): nothing is sent, nothing may stay behind
+    Abandon { site: u32 },
 }
 
 impl Cmd {
@@ -252,6 +255,7 @@ impl Script {
                 Instr::Select { .. } => out.push("i.Select"),
                 Instr::Yield { .. } => out.push("i.Yield"),
                 Instr::Hold { .. } => out.push("i.Hold"),
+                Instr::Abandon { .. } => out.push("i.Abandon"),
                 Instr::JoinAllUnordered { .. } => out.push("i.JoinAllUnordered"),
                 Instr::SpawnPipe { script } => {
                     out.push("i.SpawnPipe");
